@@ -147,6 +147,7 @@ type exec struct {
 	kfTriggered    bool
 	knownSig       string // set while judging a directory damaged in a way a listed known finding covers
 	writesThisLife int
+	floodDone      bool // the writer has queued its flood (readers of flood runs wait for it before their last reads)
 	writerActive   bool
 
 	readClasses []byte
@@ -770,11 +771,32 @@ func (e *exec) writer(ops []Op) {
 		e.mu.Unlock()
 	}()
 	defer e.recoverTask("writer")
+	// a flood is N one-sample writes (no other task is meant to make progress in between: the worker is starved)
+	var xs []Op
+	for _, o := range ops {
+		if o.K != "flood" {
+			xs = append(xs, o)
+			continue
+		}
+		for k := 0; k < o.N; k++ {
+			xs = append(xs, Op{K: "write", S: k % e.cfg.NSeries, Enc: k % 2, N: 1, T: int64(k), Seed: uint64(k)*2654435761 + 1})
+		}
+		xs = append(xs, Op{K: "endstarve"})
+	}
+	ops = xs
 	for i, o := range ops {
 		if e.isFailed() {
 			return
 		}
 		switch o.K {
+		case "sleep":
+			time.Sleep(time.Duration(o.N) * time.Second)
+		case "endstarve":
+			e.mu.Lock()
+			e.floodDone = true
+			e.mu.Unlock()
+			e.s.EndStarve()
+			e.cnt("floods", 1)
 		case "write":
 			chk, mint, maxt := e.buildChunk(o)
 			rec := &chunkRec{series: chunks.HeadSeriesRef(o.S + 1), mint: mint, maxt: maxt, n: uint16(chk.NumSamples()), enc: chk.Encoding(), ooo: o.OOO}
@@ -1014,6 +1036,19 @@ func (e *exec) reader(id int, steps []Read) {
 		if e.isFailed() {
 			return
 		}
+		if st.P == "afterflood" {
+			// wait (in scheduling steps) until the writer has queued its flood
+			for {
+				e.mu.Lock()
+				done := e.floodDone || !e.writerActive
+				e.mu.Unlock()
+				if done || e.isFailed() {
+					break
+				}
+				e.s.Yield(name)
+			}
+			continue
+		}
 		e.mu.Lock()
 		var live []*chunkRec
 		for _, r := range e.recs {
@@ -1197,6 +1232,11 @@ func (e *exec) runPhase(pi int, ph Phase) bool {
 			return false
 		}
 		e.cnt("pre_truncate_all", 1)
+	}
+	if pi == 0 && e.cfg.Flood > 0 {
+		// the queue may re-create its ref map ten minutes after it was started at the earliest (simulated time; no task
+		// exists yet that could spin while the clock has to move)
+		time.Sleep(11 * time.Minute)
 	}
 	s := sched.New(prng.Derive(e.cfg.SchedSeed, uint64(pi)), e.cfg.policy())
 	s.MaxSteps = 200000
